@@ -634,7 +634,17 @@ def std_trait(engine, st, ty, tyb, tb, method, args, dest_ty, trait=None):
         return VecV(list(it.items))
     if tyb == 'Option' and tb == 'PartialEq' and method in ('eq', 'ne'):
         def veq(a, b):
+            ra, rb = a, b
             a, b = deref_all(a), deref_all(b)
+            if isinstance(a, ArcV) and isinstance(b, ArcV):
+                raise Inconclusive('structural equality of Arc payloads inside an Option')
+            uty = base_type(getattr(a, 'ty', '') or '') if isinstance(a, (EnumV, Agg)) else None
+            if uty and uty not in ('Option', 'Result', 'Ordering'):
+                # a crate type with its own PartialEq impl (e.g. Job: pointer identity of the Arc payload): run it
+                fns = engine.prog.find_method(uty, 'eq', trait='PartialEq')
+                if len(fns) == 1:
+                    as_ref = lambda v, d: v if isinstance(v, RefV) else RefV(Cell(d), 0)
+                    return engine.exec_fn(st, fns[0], [as_ref(ra, a), as_ref(rb, b)]).t
             if isinstance(a, Opaque) and isinstance(b, Opaque):
                 return z3.BoolVal(a.name == b.name)
             if isinstance(a, EnumV) and isinstance(b, EnumV):
@@ -781,6 +791,13 @@ def iterator_method(engine, st, method, args, dest_ty):
             if engine.split_bool(st, r.t):
                 out.append(x)
         return IterV(out)
+    if method in ('position', 'rposition'):
+        idxs = range(len(it.items)) if method == 'position' else range(len(it.items) - 1, -1, -1)
+        for i in idxs:
+            r = engine.call_closure(st, args[1], [it.items[i]])
+            if engine.split_bool(st, r.t):
+                return mk_option(True, IV(i), ty=dest_ty)
+        return mk_option(False, ty=dest_ty)
     if method == 'filter_map':
         out = []
         for x in it.items:
@@ -1025,6 +1042,11 @@ def std_path(engine, st, name, args, dest_ty):
     if 'box_assume_init_into_vec_unsafe' in name:
         arr = args[0].cell.v if isinstance(args[0], ArcV) else deref_all(args[0])
         return VecV(list(arr.fields))
+    if name.endswith('Arc::ptr_eq'):
+        a, b = deref_all(args[0]), deref_all(args[1])
+        if isinstance(a, ArcV) and isinstance(b, ArcV):
+            return BV(a.cell is b.cell)
+        raise Inconclusive('Arc::ptr_eq on non-Arc values')
     if name.endswith('Arc::new') or name.endswith('Box::new'):
         return ArcV(Cell(args[0]))
     if name.endswith('::iter::once') or name == 'once':
@@ -1193,9 +1215,24 @@ def seq_method(engine, st, method, args, dest_ty):
         return UnitV()
     if method == 'insert' and isinstance(s, VecV):
         i = args[1].concrete()
-        if i is None or i > len(s.items):
-            raise Inconclusive('Vec::insert with symbolic or out-of-range index')
+        if i is None:
+            # symbolic index: one path per position (and one for the out-of-bounds panic)
+            i = engine.choose(st, [(args[1].t == j, j) for j in range(len(s.items) + 1)] + [(args[1].t > len(s.items), len(s.items) + 1)])
+        if i > len(s.items):
+            st.panic_if(z3.BoolVal(True), 'Vec::insert index out of bounds')
+            st.ended = 'panic'
+            raise _PathEnds()
         s.items.insert(i, args[2])
+        return UnitV()
+    if method == 'retain' and isinstance(s, VecV):
+        clo = args[1]
+        holder = RefV(Cell(clo), 0, True) if not isinstance(clo, RefV) else clo
+        kept = []
+        for x in list(s.items):
+            r = engine.call_closure(st, holder, [RefV(Cell(x), 0)])
+            if engine.split_bool(st, r.t):
+                kept.append(x)
+        s.items[:] = kept
         return UnitV()
     if method == 'pop':
         if not s.items:
